@@ -116,7 +116,11 @@ def run(chk):
                             if r.chance(1, 2) and q + len(tail) + 3 + len(tail) <= sz:
                                 b[q + len(tail) + 3:q + len(tail) + 3 + len(tail)] = tail      # a second candidate tail
             bufs.append(bytes(b))
-        meta = {"shape": shape(toks)}
+        for a in g.aim:
+            # aimed at a jump that one verification enters at two offsets
+            bufs.append(b".." + a + b"..")
+            bufs.append(a)
+        meta = {"shape": shape(toks) + ("/two-entry-jump" if g.aim else "")}
         if fast:
             meta.update(cmd="hexf", pat=regen.hex_pat(toks))
         items.append((decl, sexp, bufs, meta))
